@@ -360,7 +360,7 @@ def _all_components(inner, b):
                 srcs.append(side[1][2][0])
             else:
                 return False, f'a merged operand is not a component\'s steps: {T.show(side)[:80]}'
-        want = {('f', P(0), '0'), ('f', P(0), '1')}
+        want = {('f', P(0), '#0'), ('f', P(0), '#1')}
         if set(srcs) == want and len(srcs) == 2:
             return True, 'steps of both components'
         return False, f'merged steps come from {[T.show(x) for x in srcs]}: a component\'s steps are missing (its step offsets drop out of every search space)'
@@ -563,7 +563,7 @@ def _deleg_form(t, callee, comb, nparams):
         l = T.as_lin(t)
         rs = l[2]
         if l[1] == 0 and len(rs) == 2 and all(c == 1 and is_tag(r, 'call') and r[1] == callee and tuple(r[2][1:]) == args_want for r, c in rs) \
-                and {r[2][0] for r, _ in rs} == {('f', P(0), '0'), ('f', P(0), '1')}:
+                and {r[2][0] for r, _ in rs} == {('f', P(0), '#0'), ('f', P(0), '#1')}:
             return True, 'sum of both components, same argument'
         return False, 'not the sum of the two components'
     else:
